@@ -82,6 +82,10 @@ func c01ReadExecs2(logDir string) ([]c01Exec2, bool) {
 			if len(f) == 2 {
 				ex.exit, _ = strconv.Atoi(f[0])
 				ex.end, _ = strconv.ParseInt(f[1], 10, 64)
+			} else { // exit file still being written
+				allDone = false
+				ex.end = 1 << 62
+				ex.exit = -1
 			}
 		} else {
 			allDone = false
@@ -177,7 +181,7 @@ func c01OpRun2(c *Case, rng *Rng, failA, failB int, x0, x1, x2, x3 []c01Ev, scra
 	}
 	op.VerifStart()
 	release := func(key string, att int, code string) {
-		_ = os.WriteFile(filepath.Join(logDir, fmt.Sprintf("go-%s-%d", key, att)), []byte(code), 0o644)
+		c01WriteGate(filepath.Join(logDir, fmt.Sprintf("go-%s-%d", key, att)), code)
 	}
 	defer func() {
 		op.KubeEventsManager.PauseHandleEvents()
